@@ -119,9 +119,13 @@ def r1(ctx, retsets):
             flag = G.zero(("load", HRP)) or G.false(lambda e: vf.mentions(e, lambda x: x == ("load", HRP)))
             noterr = bool(G.find_ne(is_hdr("type"), lambda y: y == ("c", 10)))
             hv = bool(G.find_eq(is_hdr("ver"), lambda y: y == ("c", v[1])))
-            ctx.check(flag and noterr and hv, "C13.R1", "first-pdu-downgrade:conditions", s.loc(),
-                      "first PDU of the connection=%s, not an Error Report=%s, header carries exactly the lower version=%s" % (flag, noterr, hv),
-                      key="C13.R1:first-pdu:conditions")
+            # only a header that has passed the length checks counts as "the cache speaks the lower version" (eight arbitrary bytes do not)
+            lens = [b for (r, a, b) in G.rel if r in ("le", "lt") and a[0] == "c" and a[1] >= (8 if r == "le" else 7) and is_hdr("len")(b)]
+            lenu = [a for (r, a, b) in G.rel if r in ("le", "lt") and b[0] == "c" and b[1] <= 3248 + (0 if r == "le" else 1) and is_hdr("len")(a)]
+            wellformed = bool(lens) and bool(lenu)
+            ctx.check(flag and noterr and hv and wellformed, "C13.R1", "first-pdu-downgrade:conditions", s.loc(),
+                      "first PDU of the connection=%s, not an Error Report=%s, header carries exactly the lower version=%s, header length within 8..3248 already checked=%s" % (
+                          flag, noterr, hv, wellformed), key="C13.R1:first-pdu:conditions")
         elif kind == "error-report":
             on4 = _only_for_code(pdb, fn, s, rfc8210.ERROR_CODES["unsupported protocol version"], retsets)
             fast = _followed_by_state(pdb, fn, s, st["RTR_FAST_RECONNECT"], retsets)
@@ -323,6 +327,9 @@ def check(ctx):
     with ctx.shared({"C04.R2": ("C13.R5", "a PDU is accepted only in the format of its own version byte (End of Data: 12 bytes for version 0, 24 for "
                                 "version 1), and R3 ties that byte to the negotiated version")}):
         C04.r2_r3(ctx)
+    with ctx.shared({"C04.R4": ("C13.R6", "a PDU that rtr_receive_pdu refused (wrong version included) is never looked at by its callers: no type "
+                                "dispatch on the buffer after a negative result")}):
+        C04.r4(ctx, retsets)
 
 
 PK = "rtrlib/rtr/packets.c"
